@@ -197,6 +197,22 @@ CLAIMED['C09'] = dict(
          'real connect() queue shapes.',
     design='§6 C09')
 
+CLAIMED['C10'] = dict(
+    text='Per-step contracts of LoginReactor.react, executed from the real source over a ghost event trace: encryption request '
+         '(symbolic server id / key / token; with and without auth token): exactly one fresh 16-byte secret, join(hash(server id, '
+         'the SAME secret, the packet key)) iff online and a token is set, EncryptionResponse{shared_secret = RSA(secret), '
+         'verify_token = RSA(token)} written forced, under the lock, through the UNWRAPPED socket before the swap, then socket and '
+         'file object wrapped with encryptor/decryptor of ONE cipher with key = IV = that secret, nothing queued; set compression '
+         'for every integer threshold with a frame condition; plugin request -> exactly one unsuccessful response queued; login '
+         'success -> PlayingReactor of the same connection; any other packet changes nothing; login disconnect for 10 JSON body '
+         'shapes with symbolic strings: never a silent exit, LoginDisconnect containing the message or VersionMismatch for the two '
+         '"Outdated" forms (regex as z3 regular expression).',
+    note='The history quantifier (any admissible order of steps) is an induction over these per-step obligations - an '
+         'argument, not machine-checked. Trusted: os.urandom, RSA/AES constructors as uninterpreted functions, C17 hash '
+         'contract, json.loads shapes, z3 string/regex theory. Bounded: the reaction with a real RSA-1024 key and real AES '
+         '(response decrypted independently, cipher compared with a reference CFB8), 18 concrete disconnect bodies.',
+    design='§6 C10')
+
 PLANNED = {
     'C01': 'check not built yet (DESIGN §6 C01): frame contracts on Packet.write/_write_buffer/read_packet',
     'C02': 'check not built yet (DESIGN §6 C02)',
